@@ -721,3 +721,13 @@ func (s *Snap) SetTS(ts uint64) {
 
 // TS returns the timestamp in force.
 func (s *Snap) TS() uint64 { return s.ts }
+
+// SetLazy = SetWithFlags(key, val, kv.SetNeedConstraintCheckInPrewrite): a write whose constraint check is deferred to the
+// prewrite (TiDB with tidb_constraint_check_in_place_pessimistic=off).  Trace: `setlazy <key> <val>`.
+func (c *Client) SetLazy(key, val []byte) string {
+	c.track(key)
+	n := c.callBegin("setlazy", Hx(key), Hx(val))
+	err := c.txn.txn.GetMemBuffer().SetWithFlags(key, val, kv.SetNeedConstraintCheckInPrewrite)
+	c.callEnd(n, "setlazy", resOf(err), nil)
+	return Classify(err)
+}
